@@ -276,6 +276,34 @@ def run(tier, seed, replay=None):
             if (nv == 3) != same:
                 V.failure({'what': 'L2: end points %s*tol apart are %s in the model catalogue' % (fac, 'distinct vertices' if same else 'one vertex'),
                            'controlpoint_absolute_tolerance': tolf, 'vertices': nv})
+    # the relative control-point tolerance, entry by entry: two curves whose nets differ in ONE small entry by far more than
+    # atol + rtol*|entry| are distinct objects, however large the other coordinates are; below that they are one
+    from splipy.splinemodel import Orientation, OrientationError
+    for rtolf in [1e-6, 1e-3]:
+        for big in [1.0, 50.0, 4096.0]:
+            for fac, same in ((0.25, True), (40.0, False)):
+                small = 0.002
+                delta = fac * rtolf * small
+                a_ = Curve(BSplineBasis(2, [0, 0, 1, 2, 2]), [[0.0, 0.0], [small, big], [1.0, 2 * big]])
+                b_ = Curve(BSplineBasis(2, [0, 0, 1, 2, 2]), [[0.0, 0.0], [small + delta, big], [1.0, 2 * big]])
+                with state_cm(controlpoint_absolute_tolerance=1e-12, controlpoint_relative_tolerance=rtolf):
+                    try:
+                        Orientation.compute(a_, b_)
+                        matched = True
+                    except OrientationError:
+                        matched = False
+                    m_ = SplineModel(pardim=1, dimension=2)
+                    m_.add(a_)
+                    try:
+                        m_.add(b_, raise_on_twins=False)
+                        nedge = len(m_.catalogue.nodes(1))
+                    except Exception as e:  # noqa
+                        nedge = type(e).__name__
+                evals += 1
+                if matched != same or nedge != (1 if same else 2):
+                    V.failure({'what': 'L2: curves whose nets differ in one entry by %s*rtol*|entry| are %s by Orientation.compute and give %s edge node(s)'
+                                       % (fac, 'matched' if matched else 'distinct', nedge),
+                               'controlpoint_relative_tolerance': rtolf, 'other_coordinates': big, 'entry': small, 'difference': delta})
     # ------------------------------------------------------------------ C: programs over state()
     lines, pmeta = [], []
     nprog = 700 if tier == 'quick' else 6000
